@@ -58,14 +58,18 @@ def run(R):
             R.oracle_fail(f"re-applying threw ({x})", {"request": q, "observed": x}); continue
         out = bytes.fromhex(d["out"][1:])
         det = "unreversed-detected" if mirrored else "reversed-detected"
+        # known finding D84: a first hunk that only removes lines and carries no context leaves no evidence once applied (its reversal
+        # is an insertion that "fits" anywhere); if the removed text occurs elsewhere the hunk is found there and applied again
+        first_eff = gen.reverse_hunk(hs[0]) if mirrored else hs[0]
+        tag = "reapply.context-free-removal" if all(op == gen.MINUS for op, _ in first_eff["lines"]) else None
         if mode == "N":
             if out != gen.render(file_, "keep") or d["skipped"] != "1" or int(d["failed"]) != len(hs) or det not in d["msgs"] or "skipping-patch" not in d["msgs"]:
-                R.oracle_fail("-N: an already applied patch was not skipped with every hunk saved as a reject and the file unchanged", {"request": q, "observed": x})
+                R.oracle_fail("-N: an already applied patch was not skipped with every hunk saved as a reject and the file unchanged", {"request": q, "observed": x}, tag=tag)
             elif any(m.startswith("hunk:") and ":skipped:" not in m for m in d["msgs"]):
                 R.oracle_fail("-N: hunks of a skipped patch are not all reported as skipped", {"request": q, "observed": x})
         elif mode == "t":
             if out != gen.render(other, "keep") or d["failed"] != "0" or det not in d["msgs"] or "assuming-R" not in d["msgs"]:
-                R.oracle_fail("-t: an already applied patch was not applied in reverse restoring the original", {"request": q, "observed": x, "expected": gen.render(other, "keep").hex()})
+                R.oracle_fail("-t: an already applied patch was not applied in reverse restoring the original", {"request": q, "observed": x, "expected": gen.render(other, "keep").hex()}, tag=tag)
         else:
             if any(m in d["msgs"] for m in ("reversed-detected", "unreversed-detected", "assuming-R", "skipping-patch")) or d["skipped"] != "0":
                 R.oracle_fail("-f: a guess about reversal was made", {"request": q, "observed": x})
